@@ -12,7 +12,9 @@ from common import *
 from props import c19
 
 TORN_CLASSES = ["zero", "envelope", "inner", "last"]
-CFG = {"replayIsComplete": True, "atomicWrite": False}     # probed per run (see probe)
+CFG = {"replayIsComplete": True, "atomicWrite": False, "loadIsPerEntry": True}     # probed per run (see probe)
+STARTUPS = []                                             # (compress, listing pattern b/r, constructor outcome) per restart after damage
+DAMAGE_STATS = {"variants": 0, "listing_positions": {}, "adjacent_pairs": 0, "compressed": 0, "plain": 0}
 
 
 class ProcessDied(BaseException):
@@ -88,11 +90,39 @@ class Run:
             self.ctor_error = repr(e)
             self.srv = None
 
+    def listing(self):
+        """the state directory as load_state will meet it: file name order of os.listdir, b = unreadable, r = readable"""
+        from BPTK_Py import FileAdapter
+        names = [fn for fn in os.listdir(self.path) if fn.endswith(".json")]
+        ad = FileAdapter(False, self.path)
+        return names, "".join("r" if ad._load_instance(fn.split(".")[0]) is not None else "b" for fn in names)
+
+    def damage(self, mid, cls):
+        """disk fault: the state file of the instance is cut to a prefix (class `cls`)"""
+        fn = os.path.join(self.path, self.ids[mid] + ".json")
+        if not os.path.exists(fn):
+            return
+        names, _ = self.listing()
+        pos = names.index(self.ids[mid] + ".json")
+        where = "first" if pos == 0 else "last" if pos == len(names) - 1 else "middle"
+        DAMAGE_STATS["listing_positions"][where] = DAMAGE_STATS["listing_positions"].get(where, 0) + 1
+        self.damaged_positions = getattr(self, "damaged_positions", []) + [pos]
+        content = open(fn).read()
+        with open(fn, "w") as f:
+            f.write(content[:cut_length(content, cls)])
+
     def crash(self):
         if self.srv is not None:
             self.dead.append(self.srv)
         self.srv = None
+        pattern = self.listing()[1] if getattr(self, "damaged_positions", None) else None
         self.boot()
+        if pattern is not None:
+            ps = sorted(self.damaged_positions)
+            DAMAGE_STATS["adjacent_pairs"] += int(any(b - a == 1 for a, b in zip(ps, ps[1:])))
+            STARTUPS.append((self.compress, pattern, "raises" if self.srv is None else
+                             "ok:" + ",".join(str(i) for i, ch in enumerate(pattern) if ch == "r")))
+            self.damaged_positions = []
 
     def close(self):
         for s in self.dead + ([self.srv] if self.srv else []):
@@ -314,6 +344,8 @@ def run_ops(hist, ops, base, tag, runner=None):
                 elif op[0] == "torn":
                     run.torn_step(op[1], op[2], op[3])
                     run.crash(); out.append(("none", None))
+                elif op[0] == "damage":
+                    run.damage(op[1], op[2]); out.append(("none", None))
                 files.append({mid: run.file_state(mid) for mid in run.ids} if run.srv is not None else None)
         finally:
             if run is not None:
@@ -331,6 +363,8 @@ def model_lines(hist, ops):
             req.append(f"step {op[1]} {settings_token(op[2])}")
         elif op[0] == "crash":
             req.append("crash")
+        elif op[0] == "damage":
+            req.append(f"damage {op[1]}")
         else:
             req.append(f"torn {op[1]} {settings_token(op[2])}")
         for mid in range(len(hist["instances"])):
@@ -369,8 +403,29 @@ def variants(hist):
     request that died is retried by the client after the restart (it was never answered)."""
     ops = base_ops(hist)
     out = []
-    for k in range(len(ops) + 1):
-        out.append((f"crash@{k}", ops[:k] + [("crash",)] + ops[k:]))
+    if hist.get("crash", True):
+        for k in range(len(ops) + 1):
+            out.append((f"crash@{k}", ops[:k] + [("crash",)] + ops[k:]))
+    if hist.get("damage"):
+        # disk faults: once every instance is externalised, the state file of EACH instance alone and of EVERY pair of
+        # instances (hence first / middle / last and every adjacent pair of the directory listing, whatever its order)
+        # is cut, then the server restarts and the session goes on
+        import itertools
+        n = len(hist["instances"])
+        seen, k0 = set(), None
+        for k, op in enumerate(ops):
+            if op[0] == "step":
+                seen.add(op[1])
+            if len(seen) == n:
+                k0 = k + 1
+                break
+        if k0 is not None:
+            sets = [(m,) for m in range(n)] + list(itertools.combinations(range(n), 2))
+            for j, ms in enumerate(sets):
+                for k in sorted({k0, len(ops)}):
+                    cls = ("inner", "zero", "last")[(j + k) % 3]
+                    out.append((f"damage@{k}:{'+'.join(map(str, ms))}:{cls}",
+                                ops[:k] + [("damage", m, cls) for m in ms] + [("crash",)] + ops[k:]))
     if hist.get("torn", True):
         for k, op in enumerate(ops):
             if op[0] == "step":
@@ -437,6 +492,9 @@ def check_variant(hist, name, ops, un_by_step, base, model_out, runner=None):
             lost.add(mid)
             externalised.discard(mid)
             lost |= {m for m in range(len(hist["instances"])) if m not in externalised and any(o[0] == "start" and o[1] == m for o in ops[:oi])}
+        elif op[0] == "damage":
+            if op[1] in externalised:
+                lost.add(op[1]); externalised.discard(op[1])
         elif op[0] == "crash":
             lost |= {m for m in range(len(hist["instances"])) if m not in externalised and any(o[0] == "start" and o[1] == m for o in ops[:oi])}
         # files: model vs real
@@ -552,6 +610,20 @@ def late_settings_histories(quick):
     return out
 
 
+def damage_histories(quick):
+    """3 (and 4) externalised instances, both adapter modes; see `variants` for the damage sets"""
+    out = []
+    for n in ([3] if quick else [3, 4]):
+        for compress in (True, False):
+            insts = []
+            for m in range(n):
+                insts.append({"sms": ["smA"], "scs": [["a"], ["a", "b"], ["b"], ["a"]][m], "eqs": [["s", "c"], ["s"], ["g", "s"], ["c"]][m],
+                              "steps": [copy.deepcopy([C5, {"k": "empty"}, K3, {"k": "nobody"}][m]), {"k": "empty"}, copy.deepcopy(C5)][:2 + (m % 2)]})
+            out.append({"spec": {"start": 1.0, "dt": 0.5, "stop": 10.0}, "compress": compress, "torn": False, "crash": False, "damage": True,
+                        "instances": insts})
+    return out
+
+
 WITNESS_LATE = {"spec": {"start": 1.0, "dt": 1.0, "stop": 10.0}, "compress": False, "torn": False,
                 "instances": [{"sms": ["smA"], "scs": ["a"], "eqs": ["s", "c"],
                                "steps": [{"k": "empty"}, {"k": "empty"}, copy.deepcopy(C5)]}]}
@@ -600,8 +672,38 @@ def probe(base):
     _, v = run_history(WITNESS_LATE, base, only="crash@3")
     facts["replayIsComplete"] = facts["restoreReplaysSettings"] and not any(k == "continuation-differs" for k, _, _ in v)
     facts["atomicWrite"] = probe_atomic(base)
-    CFG["replayIsComplete"], CFG["atomicWrite"] = facts["replayIsComplete"], facts["atomicWrite"]
+    facts["loadIsPerEntry"] = probe_load(base)
+    CFG["replayIsComplete"], CFG["atomicWrite"], CFG["loadIsPerEntry"] = facts["replayIsComplete"], facts["atomicWrite"], facts["loadIsPerEntry"]
     return facts
+
+
+def probe_load(base):
+    """ExternalStateAdapter.load_state over a listing [damaged, readable, readable] and [damaged, damaged, readable], compressed:
+    exactly the readable entries come back, each with decompressed logs (probed with a stub adapter: the loop of the base class)."""
+    import contextlib, io
+    try:
+        from BPTK_Py.externalstateadapter.externalStateAdapter import ExternalStateAdapter, InstanceState
+        from BPTK_Py.util import statecompression as sc
+        def entry(i):
+            log = {1.0: {}, 2.0: {}}
+            return InstanceState({"settings_log": sc.compress_settings(log), "results_log": sc.compress_results({}), "step": 3.0}, f"i{i}", "t", {}, 3.0)
+        class Stub(ExternalStateAdapter):
+            def __init__(self, items): super().__init__(True); self.items = items
+            def _save_state(self, state): pass
+            def _save_instance(self, state): pass
+            def _load_state(self): return list(self.items)
+            def _load_instance(self, instance_uuid): return None
+            def delete_instance(self, instance_uuid): pass
+        ok = True
+        for pattern in ("brr", "bbr", "rbr", "rrb", "rbbr"):
+            with contextlib.redirect_stdout(io.StringIO()):
+                got = Stub([None if ch == "b" else entry(i) for i, ch in enumerate(pattern)]).load_state()
+            want = [f"i{i}" for i, ch in enumerate(pattern) if ch == "r"]
+            ok = ok and [g.instance_id if g is not None else None for g in got] == want and \
+                all(isinstance(g.state["settings_log"], dict) and "steps" not in g.state["settings_log"] for g in got)
+        return ok
+    except Exception:
+        return False
 
 
 def probe_atomic(base):
@@ -628,12 +730,17 @@ def gen_lean(facts):
            f"/-- probed on this tree: a restored session replays its logged settings: {facts['restoreReplaysSettings']}; "
            f"load_state skips unreadable files: {facts['loadSkipsBadFiles']}; the replay covers every logged step (steps without "
            f"settings before the crash, settings after the restart): {facts['replayIsComplete']}; a state write that dies half way "
-           f"leaves the previous state file readable: {facts['atomicWrite']} -/\n"
-           f"def cfg : Cfg := {{ replayIsComplete := {b(facts['replayIsComplete'])}, atomicWrite := {b(facts['atomicWrite'])} }}\n"
+           f"leaves the previous state file readable: {facts['atomicWrite']}; load_state treats every listed file on its own (damaged entries "
+           f"dropped, every other one decompressed): {facts['loadIsPerEntry']} -/\n"
+           f"def cfg : Cfg := {{ replayIsComplete := {b(facts['replayIsComplete'])}, atomicWrite := {b(facts['atomicWrite'])}, "
+           f"loadIsPerEntry := {b(facts['loadIsPerEntry'])} }}\n"
            "theorem holds_wave1 {σ ρ : Type} (d : Dyn σ ρ) : C20_full d := C20_full_holds d\n#print axioms holds_wave1\n")
-    if facts["replayIsComplete"]:
+    if facts["replayIsComplete"] and not facts["loadIsPerEntry"]:
+        out += ("theorem violated {σ ρ : Type} (d : Dyn σ ρ) : ¬ C20_full_cfg cfg d := C20_witness_skipping_load cfg (by decide) d\n"
+                "#print axioms violated\n")
+    elif facts["replayIsComplete"]:
         out += "theorem holds {σ ρ : Type} (d : Dyn σ ρ) : C20_full_cfg cfg d := C20_full_of_good cfg (by decide) d\n#print axioms holds\n"
-        if facts["atomicWrite"]:
+        if facts["atomicWrite"] and facts["loadIsPerEntry"]:
             out += ("theorem no_instance_lost_in_write {σ ρ : Type} (d : Dyn σ ρ) : NoLossInWrite cfg d := "
                     "noLoss_of_atomic cfg (by decide) (by decide) d\n#print axioms no_instance_lost_in_write\n")
     else:
@@ -673,7 +780,7 @@ def _run(chk, base):
                        "points; fsync/rename ordering of the file system is trusted", "SD sessions; start/dt on the dyadic or the decimal lattice (see C19)"]
     nmax = 6 if chk.quick else 12
     rng = chk.rng.fork("c20-hist")
-    hists = [WITNESS, WITNESS_LATE] + late_settings_histories(chk.quick) + [gen_history(rng, nmax) for _ in range(8 if chk.quick else 40)]
+    hists = [WITNESS, WITNESS_LATE] + damage_histories(chk.quick) + late_settings_histories(chk.quick) + [gen_history(rng, nmax) for _ in range(8 if chk.quick else 40)]
     chk.cov["rule"] = (f"per generated history (1-3 instances, <= {nmax} steps, settings / {{}} / no body, both adapter modes): one uninterrupted run, then one "
                        "run per crash point k in 0..N (exhaustive) and one per stepping request x torn-write class {0, inside envelope, inside inner state "
                        "string, length-1} (with an atomic state write the request that died is retried), two runs with crashes at several positions; "
@@ -682,7 +789,9 @@ def _run(chk, base):
                        "a case = (history, variant); non-trivial = the history changes a constant")
     viol_by_key = {}
     total = 0
-    dist = {"histories": 0, "crash_variants": 0, "torn_variants": 0, "multi_crash_variants": 0, "instances": {1: 0, 2: 0, 3: 0}, "compressed": 0,
+    del STARTUPS[:]
+    DAMAGE_STATS.update({"variants": 0, "listing_positions": {}, "adjacent_pairs": 0, "compressed": 0, "plain": 0})
+    dist = {"histories": 0, "crash_variants": 0, "torn_variants": 0, "multi_crash_variants": 0, "instances": {1: 0, 2: 0, 3: 0, 4: 0}, "compressed": 0,
             "random_interleavings": 0, "quiet_steps_then_settings": 0, "non_dyadic": 0}
     for h in hists:
         n, viol = run_history(h, base)
@@ -690,7 +799,10 @@ def _run(chk, base):
         ops, vs = variants(h)
         dist["histories"] += 1
         dist["crash_variants"] += sum(1 for v in vs if v[0].startswith("crash") and "+" not in v[0])
-        dist["multi_crash_variants"] += sum(1 for v in vs if "+" in v[0])
+        dist["multi_crash_variants"] += sum(1 for v in vs if "+" in v[0] and v[0].startswith("crash"))
+        nd = sum(1 for v in vs if v[0].startswith("damage"))
+        DAMAGE_STATS["variants"] += nd
+        DAMAGE_STATS["compressed" if h["compress"] else "plain"] += nd
         dist["random_interleavings"] += int("order" in h)
         dist["non_dyadic"] += int(h["spec"]["dt"] in c19.DTS10)
         dist["quiet_steps_then_settings"] += int(any(i["steps"] and i["steps"][0]["k"] != "set" and any(s_["k"] == "set" for s_ in i["steps"][1:])
@@ -727,6 +839,15 @@ def _run(chk, base):
             for k, t, name in viol:
                 viol_by_key.setdefault(k, (h2, t, name))
         chk.cov["process_death"] = dict(PROC_STATS, wall_s=round(time.time() - t_proc, 1))
+    # start-up over the directory listings met after damage: model (`startup`, `loadEntries`) vs constructor outcome
+    if STARTUPS:
+        lines = [f"startup {int(c)} {int(CFG['loadIsPerEntry'])} " + " ".join(p) for c, p, _ in STARTUPS]
+        got = drive("C20", lines)
+        bad = [(l, g, e[2]) for l, g, e in zip(lines, got, STARTUPS) if g != e[2]]
+        chk.cov["startup_listings"] = {"compared": len(lines), "distinct": len(set(lines)), "damage": dict(DAMAGE_STATS)}
+        if bad and not viol_by_key:
+            chk.add_finding("correspondence", f"start-up over listing {bad[0][0]!r}: model {bad[0][1]!r}, constructor {bad[0][2]!r}",
+                            {"correspondence": "Drive/C20 startup vs BptkServer.__init__", "first": list(bad[0])}, found_input=False)
     chk.cov["input_distribution"] = dist
     chk.cov["traces_validated_against_impl"] = total
     chk.cov["exhaustive"] = "crash point and torn-write class exhaustive per history"
